@@ -280,10 +280,13 @@ def run(chk):
         pf = prog.method(pooled, m, required=False)
         if pf is None:
             continue
-        dom = SwallowDomain(prog, pf, True, only_receiver=("client",))
+        cvars = tuple(sorted({it.optional_vars.id for w in walk_no_nested(pf.node) if isinstance(w, ast.With) for it in w.items if isinstance(it.optional_vars, ast.Name)}))
+        dom = SwallowDomain(prog, pf, True, only_receiver=cvars)
         outs = Interp(dom, pf.node, prog).run(Env())
         bad = [(exc, t) for s, exc, t in outs.of("exc") if exc.colour == ORD]
         n_cov += 1
+        if not dom.n_failing:
+            raise AnalysisError("C07.R3: no call on the pooled client found in PooledClient.%s (bracket variable %s)" % (m, cvars))
         if bad:
             r3.fail("PooledClient.%s:uncovered" % m, "with ignore_exc a failure of the pooled client's call escapes PooledClient.%s" % m, fn=pf, line=bad[0][0].origin, witness=fmt_trace(bad[0][1]))
         else:
@@ -301,7 +304,15 @@ def run(chk):
         if hf is None:
             continue
         # the client is reached only through _run_cmd/_safely_run_func
-        direct = [c for c in walk_no_nested(hf.node) if isinstance(c, ast.Call) and isinstance(c.func, ast.Attribute) and isinstance(c.func.value, ast.Name) and c.func.value.id == "client"]
+        cvars = set()
+        for n in walk_no_nested(hf.node):
+            if isinstance(n, ast.Assign):
+                v = n.value
+                if isinstance(v, ast.Call) and call_name(v) == "self._get_client" and isinstance(n.targets[0], ast.Tuple) and isinstance(n.targets[0].elts[0], ast.Name):
+                    cvars.add(n.targets[0].elts[0].id)
+                if isinstance(v, ast.Subscript) and is_self_attr(v.value, "clients") and isinstance(n.targets[0], ast.Name):
+                    cvars.add(n.targets[0].id)
+        direct = [c for c in walk_no_nested(hf.node) if isinstance(c, ast.Call) and isinstance(c.func, ast.Attribute) and isinstance(c.func.value, ast.Name) and c.func.value.id in cvars]
         r3.expect(not direct, "HashClient.%s reaches clients only through the safe runner" % m, "HashClient.%s:direct-client-call" % m, "HashClient.%s calls `%s` outside _safely_run_func" % (m, node_src(direct[0]) if direct else ""), fn=hf)
     r3.floor("PooledClient read methods analysed", n_cov, 6)
     chk.assume("exceptions raised by HashClient's own bookkeeping inside the failover handlers are not decided here (C13)")
